@@ -97,7 +97,7 @@ def main(tier, seed):
     lib.build_coq()
     lib.build_driver()
     lib.build_harness()
-    n = lib.ncases(160 if tier == "quick" else 12000)
+    n = lib.ncases(220 if tier == "quick" else 12000)
     rng = random.Random(seed * 7919 + 8)
     d = lib.casedir(PID)
     insts = lib.load_corpus(PID) + [instgen.gen_instance(rng, {"slots": "some",
